@@ -97,6 +97,20 @@ T = {
  (4, "C19"): ("ConvexSpheropolyhedron.to_hoomd centres the vertices on the vertex mean", "core whose vertex mean differs from its centroid", ["C19"],
               "first missed (the base spheropolyhedron had a box core: vertex mean = centroid), caught after the base shape became a square pyramid"),
  (4, "C20"): ("to_x3d 'winding guard' reverses faces whose plane has the origin on the outer side", "X3D / HTML export of a polyhedron that does not contain the origin", ["C20"], ""),
+ (5, "C01"): ("centred inertia tensor: entries with |x| <= 1e-8 (np.isclose to 0) set to exactly 0 before the parallel-axis shift", "needle-like or small shapes (tensor entries below 1e-8)", ["C01"], "witness with significant relative difference found by the solver on the free tetrahedron"),
+ (5, "C02"): ("Polyhedron memoises its surface triangulation; dropped in _find_equations but not in _rescale", "read centroid / inertia, resize, read again (plain Polyhedron)", ["C03"], "C02 constructs and reads; the stale cache is C03's clause (observe+volume history)"),
+ (5, "C04"): ("Polygon.perimeter with np.hypot of the x and y components of the edges (z dropped)", "polygon not parallel to the xy-plane", ["C04"], ""),
+ (5, "C05"): ("Ellipsoid.is_inside subtracts the centroid from the caller's array in place", "off-origin ellipsoid, float64 points reused", ["C05"], "caught by the 'same array again' claims added after the third wave"),
+ (5, "C07"): ("neighbour search pre-filter with int64 bit masks (1 << index vanishes for index >= 64)", "more than 64 vertices", ["C07"],
+              "first missed (symbolic obligations stop at 12 vertices), caught after every tabulated solid's structure was compared with an independent facet enumeration"),
+ (5, "C09"): ("spheropolyhedron is_inside: projection clamped to [0, 1] instead of [0, edge length]", "edges shorter than 1 or longer than 2 and a point in an edge-rounding region", ["C05"],
+              "C09's probes are not in edge regions; exact membership (C05, free query point) decides it"),
+ (5, "C11"): ("spheropolyhedron edge-wedge sum as cached_property, not dropped by _rescale", "radius > 0, read volume / area, rescale, read again", ["C03"], "C03 depth-1 (the setter reads the old value itself)"),
+ (5, "C12"): ("Polyhedron memoises per-face Polygon objects for the form factor; not dropped by _rescale", "evaluate, resize, evaluate", ["C12"],
+              "first missed, then inconclusive (the claim_eq refinement squared very large terms: now size-guarded), caught by the evaluate-resize-evaluate obligations"),
+ (5, "C13"): ("minimal_bounding_sphere returns the circumsphere when one exists", "cospherical vertices with the circumcentre outside the body (flat tetrahedron, obtuse prism)", ["C13"],
+              "first missed (only necessary conditions were claimed), caught after the returned ball was compared with an exact brute-force smallest enclosing ball"),
+ (5, "C19"): ("from_gsd_type_shapes cuts polygon vertices to 2-D", "polygon with a non-zero z component", ["C19"], ""),
 }
 for (wave, pid), (what, needs, checks, note) in sorted(T.items()):
     d = os.path.join(ROOT, "seeded%d" % wave, pid)
@@ -105,7 +119,7 @@ for (wave, pid), (what, needs, checks, note) in sorted(T.items()):
     old = {}
     if os.path.exists(os.path.join(d, "meta.json")):
         old = json.load(open(os.path.join(d, "meta.json")))
-    m = dict(property=pid, wave=wave, origin=ORIGIN2 if wave == 2 else ORIGIN3 + (" (fourth wave: also a list of kinds of mistake to prefer)" if wave == 4 else ""), what=what, needs_to_manifest=needs, checks=checks,
+    m = dict(property=pid, wave=wave, origin=ORIGIN2 if wave == 2 else ORIGIN3 + (" (fourth / fifth wave: also hints at kinds of mistake and untouched clauses)" if wave >= 4 else ""), what=what, needs_to_manifest=needs, checks=checks,
              detected_by="; ".join("bin/check %s --tier quick (exit 1 with the patch, exit 0 without)" % c for c in checks), note=note,
              validated=old.get("validated"))
     v = "/tmp/valq_seeded%d_%s.json" % (wave, pid)
